@@ -422,14 +422,52 @@ func (r *vRepoC03) regions(k vbe.Key) []vRegionC03 {
 		}
 		return append(rs, vRegionC03{"pack/lenfield", size - 4, size})
 	case backend.KeyFile:
+		// plain JSON: the values of created/username/hostname are protected by nothing but the
+		// file name (= hash of the content); kdf parameters and salt decide the derived key;
+		// data is the sealed master key; the rest is JSON syntax and field names
 		buf, _ := r.e.store.Get(k.Type, k.Name)
-		i := bytes.Index(buf, []byte(`"data":"`))
-		if i < 0 {
-			return []vRegionC03{{"key/json", 0, size}}
+		labels := make([]string, size)
+		for i := range labels {
+			labels[i] = "key/json"
 		}
-		lo := i + len(`"data":"`)
-		hi := lo + bytes.IndexByte(buf[lo:], '"')
-		return []vRegionC03{{"key/json", 0, lo}, {"key/data", lo, hi}, {"key/json", hi, size}}
+		mark := func(field, label string, quoted bool) {
+			i := bytes.Index(buf, []byte(`"`+field+`":`))
+			if i < 0 {
+				return
+			}
+			lo := i + len(field) + 3
+			hi := lo
+			if quoted {
+				lo++
+				hi = lo + bytes.IndexByte(buf[lo:], '"')
+			} else {
+				for hi < size && buf[hi] != ',' && buf[hi] != '}' {
+					hi++
+				}
+			}
+			for j := lo; j < hi && j < size; j++ {
+				labels[j] = label
+			}
+		}
+		mark("created", "key/meta", true)
+		mark("username", "key/meta", true)
+		mark("hostname", "key/meta", true)
+		mark("kdf", "key/kdf", true)
+		mark("salt", "key/kdf", true)
+		mark("N", "key/kdf", false)
+		mark("r", "key/kdf", false)
+		mark("p", "key/kdf", false)
+		mark("data", "key/data", true)
+		var rs []vRegionC03
+		for i := 0; i < size; {
+			j := i
+			for j < size && labels[j] == labels[i] {
+				j++
+			}
+			rs = append(rs, vRegionC03{labels[i], i, j})
+			i = j
+		}
+		return rs
 	default:
 		return vSealedRegionsC03(k.Type.String()+"/", 0, size)
 	}
@@ -721,16 +759,26 @@ func (r *vRepoC03) vDrawMutC03(t *rapid.T, packsOnly bool) vMutC03 {
 				cand = append(cand, rg)
 			}
 		}
-		rg := cand[rapid.IntRange(0, len(cand)-1).Draw(t, "regionidx")]
+		// position inside the concatenation of all ranges with that label (weighted by size);
+		// edges are interesting: first and last byte of the range hit get extra weight
+		total := 0
+		for _, rg := range cand {
+			total += rg.Hi - rg.Lo
+		}
 		frac := rapid.Uint32().Draw(t, "pos")
-		// edges are interesting: first and last byte of the region get extra weight
-		switch frac % 8 {
-		case 0:
-			m.Off = rg.Lo
-		case 1:
-			m.Off = rg.Hi - 1
-		default:
-			m.Off = rg.Lo + int(uint64(frac)*uint64(rg.Hi-rg.Lo)>>32)
+		pos := int(uint64(frac) * uint64(total) >> 32)
+		for _, rg := range cand {
+			if pos < rg.Hi-rg.Lo {
+				m.Off = rg.Lo + pos
+				switch frac % 8 {
+				case 0:
+					m.Off = rg.Lo
+				case 1:
+					m.Off = rg.Hi - 1
+				}
+				break
+			}
+			pos -= rg.Hi - rg.Lo
 		}
 		m.Where = label
 		m.Bit = uint(rapid.IntRange(0, 7).Draw(t, "bit"))
